@@ -234,26 +234,30 @@ pub fn mutate_text(s: &str, rng: &mut Rng, out: &mut Vec<(String, String)>) {
     if n > 1 { let k = rng.below((n - 1) as u64) as usize; let mut t = cs.clone(); t.swap(k, k + 1); out.push(("t-swap".into(), t.iter().collect())); }
 }
 
-pub fn mutate_bech32(hrp: &str, bytes: &[u8], rng: &mut Rng, out: &mut Vec<(String, String)>) {
+/// bech32 inputs; the third component is the 5-bit data when the text is a checksum-valid, well-formed bech32 string
+/// (then the model predicts the outcome from the data alone), None otherwise
+pub fn mutate_bech32(hrp: &str, bytes: &[u8], rng: &mut Rng, out: &mut Vec<(String, String, Option<Vec<u8>>)>) {
     let d = to_u5(bytes);
     let good = bech32_encode_u5(hrp, &d);
-    out.push(("b32-valid".into(), good.clone()));
+    let mut valid = |l: &str, data: Vec<u8>, out: &mut Vec<(String, String, Option<Vec<u8>>)>| { out.push((l.into(), bech32_encode_u5(hrp, &data), Some(data))); };
+    valid("b32-valid", d.clone(), out);
     // valid checksum, data whose regrouping to bytes has invalid padding: extra symbols / non-zero padding bits
-    let mut d1 = d.clone(); d1.push(0); out.push(("b32-pad-extra0".into(), bech32_encode_u5(hrp, &d1)));
-    let mut d2 = d.clone(); d2.push(31); out.push(("b32-pad-extra31".into(), bech32_encode_u5(hrp, &d2)));
-    let mut d3 = d.clone(); d3.extend([0, 0]); out.push(("b32-pad-extra00".into(), bech32_encode_u5(hrp, &d3)));
-    if let Some(l) = d.last().cloned() { let mut d4 = d.clone(); let k = d4.len() - 1; d4[k] = l | 1; out.push(("b32-pad-nonzero".into(), bech32_encode_u5(hrp, &d4))); d4.pop(); out.push(("b32-drop-sym".into(), bech32_encode_u5(hrp, &d4))); }
-    out.push(("b32-empty-data".into(), bech32_encode_u5(hrp, &[])));
-    out.push(("b32-one-sym".into(), bech32_encode_u5(hrp, &[rng.below(32) as u8])));
-    for l in [0usize, 1, 27, 28, 29, 31, 32, 33, 56, 57, 63, 64, 65, 95, 96, 97, 128] { out.push(("b32-len".into(), bech32_encode_u5(hrp, &to_u5(&rng.bytes(l))))); }
+    let mut d1 = d.clone(); d1.push(0); valid("b32-pad-extra0", d1, out);
+    let mut d2 = d.clone(); d2.push(31); valid("b32-pad-extra31", d2, out);
+    let mut d3 = d.clone(); d3.extend([0, 0]); valid("b32-pad-extra00", d3, out);
+    if let Some(l) = d.last().cloned() { let mut d4 = d.clone(); let k = d4.len() - 1; d4[k] = l | 1; valid("b32-pad-nonzero", d4.clone(), out); d4.pop(); valid("b32-drop-sym", d4, out); }
+    valid("b32-empty-data", vec![], out);
+    valid("b32-one-sym", vec![rng.below(32) as u8], out);
+    for _ in 0..6 { let n = rng.below(120) as usize; let data: Vec<u8> = (0..n).map(|_| rng.below(32) as u8).collect(); valid("b32-random-syms", data, out); }
+    for l in [0usize, 1, 27, 28, 29, 31, 32, 33, 56, 57, 63, 64, 65, 95, 96, 97, 128] { let b = rng.bytes(l); valid("b32-len", to_u5(&b), out); }
     for h in ["", "a", "addr", "addr_test", "stake", "stake_test", "drep", "drep_script", "cc_hot", "cc_cold", "ed25519_pk", "ed25519_sk", "ed25519e_sk", "xprv", "xpub", "ed25519_sig", "script", "pool", "ADDR", "x\u{7f}"] {
-        out.push(("b32-hrp".into(), bech32_encode_u5(h, &d)));
+        out.push(("b32-hrp".into(), bech32_encode_u5(h, &d), None));
     }
-    out.push(("b32-upper".into(), good.to_uppercase()));
-    let mut generic = Vec::new(); mutate_text(&good, rng, &mut generic); out.extend(generic);
-    out.push(("b32-long".into(), bech32_encode_u5(hrp, &to_u5(&rng.bytes(600)))));
-    out.push(("b32-nosep".into(), good.replace('1', "")));
-    out.push(("b32-onlysep".into(), "1".into())); out.push(("b32-onlysep".into(), "a1".into())); out.push(("b32-onlysep".into(), "1qqqqqq".into()));
+    out.push(("b32-upper".into(), good.to_uppercase(), None));
+    let mut generic = Vec::new(); mutate_text(&good, rng, &mut generic); for (l, s) in generic { out.push((l, s, None)); }
+    out.push(("b32-long".into(), bech32_encode_u5(hrp, &to_u5(&rng.bytes(600))), None));
+    out.push(("b32-nosep".into(), good.replace('1', ""), None));
+    out.push(("b32-onlysep".into(), "1".into(), None)); out.push(("b32-onlysep".into(), "a1".into(), None)); out.push(("b32-onlysep".into(), "1qqqqqq".into(), None));
 }
 
 // ------------------------------------------------------------------------------------------------ JSON
@@ -392,7 +396,7 @@ fn targeted(rng: &mut Rng, cases: &mut Vec<String>) {
         for (l, v) in vs {
             push(format!("raw Address {} {}", hex_or_dash(&v), l));
             push(format!("dec ByronAddress {} {}", hex_or_dash(&v), l));
-            push(format!("fn b58 {} {}", thex(&base58_encode(&v)), l));
+            push(format!("fn b58 {} {} {}", thex(&base58_encode(&v)), hex_or_dash(&v), l));
             if k < 20 { let mut o = vec![0x82u8]; o.extend(bstr(&v)); o.push(0x01); push(format!("dec TransactionOutput {} emb-{}", hex_or_dash(&o), l)); }
         }
     }
@@ -471,9 +475,10 @@ pub fn build_cases(model_txt: &str, rng: &mut Rng, thorough: bool, cases: &mut V
         // a few unrelated decoders on the same bytes (type confusion)
         for _ in 0..2 { let other = *rng.pick(&dec_names); cases.push(format!("dec {} {} confusion", other, hex_or_dash(seed))); }
         let mut muts = Vec::new();
-        mutate_cbor(seed, rng, cap, &mut muts);
+        // long encodings are run as they are; the mutation stream works on the shorter ones (the model side generates every size)
+        if seed.len() <= (if thorough { 2500 } else { 700 }) { mutate_cbor(seed, rng, cap, &mut muts); }
         for (label, m) in muts {
-            if m.len() > 20000 { continue; }
+            if m.len() > 6000 { continue; }
             cases.push(format!("dec {} {} {}", ty, hex_or_dash(&m), label));
             if rng.chance(1, 6) { let ai = rng.below(aliases(ty).len().max(1) as u64) as usize; if let Some(a) = aliases(ty).get(ai) { cases.push(format!("dec {} {} alias-{}", a, hex_or_dash(&m), label)); } }
         }
@@ -496,7 +501,7 @@ pub fn build_cases(model_txt: &str, rng: &mut Rng, thorough: bool, cases: &mut V
             let bytes = if ty == "Address" { shelley_valid(rng) } else { rng.bytes(b32_len(ty)) };
             let hrp = if ty == "Address" { if bytes[0] >> 4 >= 14 { "stake" } else { "addr" } } else { hrp_for(ty) };
             let mut ms = Vec::new(); mutate_bech32(hrp, &bytes, rng, &mut ms);
-            for (l, s) in ms { cases.push(format!("b32 {} {} {}", ty, thex(&s), l)); }
+            for (l, s, u5) in ms { cases.push(format!("b32 {} {} {} {}", ty, thex(&s), match u5 { Some(d) => hex_or_dash(&d), None => "~".into() }, l)); }
         }
     }
     for _ in 0..(if thorough { 200 } else { 40 }) { let a = shelley_valid(rng); cases.push(format!("raw Address {} addr-valid", hex_or_dash(&a)));
